@@ -169,8 +169,9 @@ def build_pair(prop, spec, jobs, known_ids):
     sa = C.make_scratch(prop + "a")
     sb = C.make_scratch(prop + "b")
     mods = sorted({j["module"] for j in jobs} | {m for j in jobs for m in j.get("extra_modules", [])})
-    hooks = M.inject(os.path.join(sa, "repo"), mods, known_ids)
-    M.inject(os.path.join(sb, "repo"), mods, known_ids)
+    gd = spec.get("grammar_deviations", False)
+    hooks = M.inject(os.path.join(sa, "repo"), mods, known_ids, False, gd)
+    M.inject(os.path.join(sb, "repo"), mods, known_ids, False, gd)
     info = M.expand_a2l_spec(os.path.join(sb, "repo"))
     hooks.append("build B: a2lfile/src/specification.rs := head + rustfmt(a2lmacros::a2lspec::a2l_specification(DSL of specification_orig.rs)) + tail  %s" % json.dumps(info))
     return sa, sb, hooks, info
